@@ -184,46 +184,48 @@ def worker_main(argv: list[str]) -> int:
                 k = res["known"].setdefault(kf["id"], {"count": 0, "example_seed": run_seed, "example": vj})
                 k["count"] += 1
                 continue
-            entry = {"run_index": run_index, "run_seed": run_seed, "violation": vj, "trace": trace, "minimised": False}
+            entry = {"run_index": run_index, "run_seed": run_seed, "violation": vj, "trace": trace, "minimised": False, "_v": v}
             if history_clean:
                 entry["process_history"] = {"property": prop, "tier": tier, "verif_seed": verif_seed, "run_indices": list(executed[:-1])}
                 entry["orig_trace"], entry["orig_violation"] = trace, vj
-            if minimised < 2:
-                minimised += 1
-                history_clean = False
-                try:
-                    def still(c: dict, _tag=vj["tag"], _ctx=vj.get("context", {})):
-                        if hasattr(mod, "valid_trace") and not mod.valid_trace(c):
-                            return None  # the candidate left the property's preconditions
-                        o = mod.execute(c)
-                        for vv in [o.violation] + list(o.extra_violations):
-                            if vv is not None and vv.tag == _tag and match_known(vv.to_json(), findings) is None:
-                                # an unexpected exception must stay the *same* exception while shrinking
-                                if "exc_type" in _ctx and (
-                                    vv.context.get("exc_type") != _ctx.get("exc_type")
-                                    or str(vv.context.get("exc", ""))[:40] != str(_ctx.get("exc", ""))[:40]
-                                ):
-                                    continue
-                                return vv.event
-                        return None
-
-                    small, execs = mini.minimize(trace, v.event, still, mini.Budget(150, 60.0))
-                    o2 = mod.execute(small)
-                    v2 = next(
-                        (vv for vv in [o2.violation] + list(o2.extra_violations) if vv is not None and vv.tag == vj["tag"]),
-                        None,
-                    )
-                    if v2 is not None:
-                        entry["trace"] = small
-                        entry["violation"] = v2.to_json()
-                        entry["minimised"] = True
-                        entry["minimise_execs"] = execs
-                except Exception as e:  # noqa: BLE001
-                    entry["minimise_error"] = repr(e)[:300]
             res["violations"].append(entry)
         run_index += nworkers
         if len(res["violations"]) >= 5:
             break
+    # minimise after the search loop: candidate executions then cannot become part of a later run's process history
+    for entry in res["violations"]:
+        trace, vj, v = entry["trace"], entry["violation"], entry.pop("_v")
+        if minimised < 2:
+            minimised += 1
+            try:
+                def still(c: dict, _tag=vj["tag"], _ctx=vj.get("context", {})):
+                    if hasattr(mod, "valid_trace") and not mod.valid_trace(c):
+                        return None  # the candidate left the property's preconditions
+                    o = mod.execute(c)
+                    for vv in [o.violation] + list(o.extra_violations):
+                        if vv is not None and vv.tag == _tag and match_known(vv.to_json(), findings) is None:
+                            # an unexpected exception must stay the *same* exception while shrinking
+                            if "exc_type" in _ctx and (
+                                vv.context.get("exc_type") != _ctx.get("exc_type")
+                                or str(vv.context.get("exc", ""))[:40] != str(_ctx.get("exc", ""))[:40]
+                            ):
+                                continue
+                            return vv.event
+                    return None
+
+                small, execs = mini.minimize(trace, v.event, still, mini.Budget(150, 60.0))
+                o2 = mod.execute(small)
+                v2 = next(
+                    (vv for vv in [o2.violation] + list(o2.extra_violations) if vv is not None and vv.tag == vj["tag"]),
+                    None,
+                )
+                if v2 is not None:
+                    entry["trace"] = small
+                    entry["violation"] = v2.to_json()
+                    entry["minimised"] = True
+                    entry["minimise_execs"] = execs
+            except Exception as e:  # noqa: BLE001
+                entry["minimise_error"] = repr(e)[:300]
     res["wall_s"] = time.monotonic() - t0
     res["abstract"] = sorted(res["abstract"])
     res["interleavings"] = sorted(res["interleavings"])
@@ -371,13 +373,16 @@ def run_check(prop: str, tier: str, verif_seed: int, budget_s: float | None = No
             full = list(hist["run_indices"])
             if try_history(full):
                 best = full
+                t_min = time.monotonic()  # minimising the history is bounded: 90 s per violation
                 k = 1
-                while k < len(full):  # shortest reproducing suffix by doubling
+                while k < len(full) and time.monotonic() - t_min < 90.0:  # shortest reproducing suffix by doubling
                     if try_history(full[-k:]):
                         best = full[-k:]
                         break
                     k *= 2
                 for i in range(min(len(best), 12)):  # then drop single earlier runs (bounded)
+                    if time.monotonic() - t_min > 90.0:
+                        break
                     cand = best[:i] + best[i + 1 :]
                     if len(best) > 1 and i < len(best) and try_history(cand):
                         best = cand
@@ -460,10 +465,10 @@ def run_check(prop: str, tier: str, verif_seed: int, budget_s: float | None = No
         shutil.rmtree(work, ignore_errors=True)
     except Exception:  # noqa: BLE001
         pass
+    if reported:
+        return 1  # (a violation that replays takes precedence; harness errors, if any, are printed above)
     if harness_errors:
         return 2
-    if reported:
-        return 1
     if runs == 0:
         print("HARNESS-ERROR: no run completed")
         return 2
